@@ -10,9 +10,15 @@ STD_ASSUMPTIONS = [
 ]
 
 CHECKS = {}
+NOT_APPLICABLE = {}
+HOOK_COMMITS = ["3a4e866"]
 
 CHECKS["C01"] = {
     "level": "exploration",
+    "claim": ("Generated-input search: rapid-generated envelopes of all kinds and exhaustive small-alphabet text forms, judged by an independent "
+              "canonical form (wire-shape predicate + normalised equality) through the typed decoders and the real TCP receive path."),
+    "note": "Trusts encoding/json, the harness's canonical form (norm.go) and the in-memory net.Conn; values are sampled (text forms exhaustive up to the stated length).",
+    "technique": "property-based testing (rapid): round-trip + independent wire-shape oracle; exhaustive small-scope enumeration of text forms",
     "rule": ("rapid-generated envelope specs of all 5 kinds (optional fields drawn independently, recursive documents of every "
              "kind incl. chat and a harness-registered custom type, all authentication types) round-tripped through json.Marshal, "
              "typed decoder, raw bytes into a real TCP transport's Receive (4 whitespace variants) and Send->Receive; plus exhaustive "
@@ -27,5 +33,25 @@ CHECKS["C01"] = {
         {"test": "TestC01Text", "kind": "plain"},
         {"test": "TestC01", "kind": "rapid", "shards": 14, "checks": (5000, 60000)},
         {"test": "TestC01TextRapid", "kind": "rapid", "shards": 1, "checks": (5000, 200000)},
+    ],
+}
+
+CHECKS["C11"] = {
+    "level": "exploration",
+    "claim": ("Generated requests/messages x all reply builders, compared with the reply computed from the property statement and round-tripped "
+              "over the wire; ping auto-reply exercised end to end on both roles over loopback TCP."),
+    "note": "Trusts the canonical form and encoding/json; ping cases use real loopback sockets with a 2 s response bound per request.",
+    "technique": "property-based testing (rapid): independent field oracle + wire round-trip; enumerated end-to-end ping cases",
+    "rule": ("rapid-generated request commands / messages (from/pp/to in all 8 combinations, all methods, resources of every document "
+             "kind) x builders {SuccessResponse, SuccessResponseWithResource, FailureResponse, Notification, FailedNotification, Sender}; "
+             "expected reply computed from the statement, compared field by field, then wire round-trip (typed decoder + real TCP "
+             "transport). Ping auto-reply: Server and Client built with AutoReplyPings over loopback TCP, all 8 address combinations x 2 "
+             "URI forms. Non-trivial: pp present, or a resource, or a failure reason; every ping case."),
+    "assumptions": STD_ASSUMPTIONS + ["ping cases need a loopback TCP socket (127.0.0.1)"],
+    "exhaustive_jobs": ["TestC11Ping"],
+    "jobs": [
+        {"test": "TestC11Replay", "kind": "plain"},
+        {"test": "TestC11Ping", "kind": "plain", "timeout": (200, 300)},
+        {"test": "TestC11", "kind": "rapid", "shards": 14, "checks": (3000, 50000)},
     ],
 }
